@@ -16,9 +16,11 @@ def numeric_cases(ctx, n):
     r = ctx.rng
     out = []
     for i in range(n):
-        out.append({'seed': r.randint(0, 10**6), 'variant': r.choice(['flat', 'perlayer']), 'secure': r.random() < 0.4,
+        out.append({'seed': r.randint(0, 10**6), 'variant': r.choice(['flat', 'perlayer', 'adaptive']), 'secure': r.random() < 0.4,
                     'nm': r.choice([0, 0.5, 1.0, 2.5]), 'C': r.choice([0.1, 1.0, 3.0]), 'B': r.choice([1, 4, 7]),
                     'red': r.choice(['mean', 'sum']), 'usergen': r.random() < 0.6, 'n': r.choice([1, 3, 5])})
+        if out[-1]['variant'] == 'adaptive' and out[-1]['nm'] == 0:
+            out[-1]['nm'] = 0.5        # sigma = 0 has no meaning for the adaptive optimizer (its noise split divides by sigma^2): construction raises
     # statistical sanity of the released noise (a TEST of the assumed Gaussian law / independence, not part of the proof)
     for secure in (False, True):
         for _ in range(1 if not ctx.thorough else 6):
